@@ -232,5 +232,77 @@ def ep_handshake(prog: Program) -> RuleResult:
     return r
 
 
+def domain_cache(prog: Program) -> RuleResult:
+    """A caching iterator over a one-shot source (the variable-domain cache) must replay the cache first and
+    record every element *before* handing it out - otherwise an iteration that is abandoned right after a
+    value's first delivery (break, early return, closed generator) loses that value for every later evaluation."""
+    r = RuleResult("DOMAIN-CACHE", "caching iterators record an element before yielding it and replay the cache first", floor=2)
+    n = 0
+    for c in sorted(prog.classes.values(), key=lambda x: x.qual):
+        if ".entity_query_language." not in c.qual:
+            continue
+        f = c.methods.get("__iter__")
+        if f is None or not f.is_generator:
+            continue
+        cfg = CFG(f.node)
+        for lp in [x for x in cfg.nodes if x.kind == "for" and is_self_attr(x.stmt.iter)]:
+            src_field = x_attr = lp.stmt.iter.attr
+            # is the iterated field a stored one-shot iterator?
+            one_shot = False
+            for g in c.methods.values():
+                for st in walk_local(g.node):
+                    if isinstance(st, ast.Assign) and any(is_self_attr(t, src_field) for t in st.targets) and (
+                        isinstance(st.value, ast.GeneratorExp) or (isinstance(st.value, ast.Call) and call_name(st.value) in ("filter", "map", "iter"))
+                    ):
+                        one_shot = True
+            if not one_shot:
+                continue
+            n += 1
+            tv = lp.stmt.target.id if isinstance(lp.stmt.target, ast.Name) else None
+            body = [x for x in cfg.nodes if lp.id in x.loops]
+            ys = [x for x in body if x.kind == "stmt" and isinstance(x.stmt, ast.Expr) and isinstance(x.stmt.value, ast.Yield)]
+            stores = [x for x in body if isinstance(x.stmt, ast.Assign) and any(isinstance(t, ast.Subscript) and is_self_attr(t.value) for t in x.stmt.targets) and tv and src(x.stmt.value) == tv]
+            stores += [x for x in body if x.kind == "stmt" and any(call_name(cc) in ("add", "append", "setdefault") and isinstance(cc.func, ast.Attribute) and is_self_attr(cc.func.value) for cc in calls_in(x.stmt))]
+            ok = bool(ys) and bool(stores) and all(any(cfg.dominates(st.id, y.id) for st in stores) for y in ys)
+            r.check(ok, f"{c.name}.__iter__#record-before-yield", site(f, lp.stmt), src(lp.stmt.iter),
+                    "every element pulled from the one-shot source is cached before it is handed out",
+                    "an element pulled from the one-shot source is handed out before it is cached: if the consumer stops right there (a universal quantifier's break, the(), "
+                    "an abandoned iterator) the value is gone from the source and never reaches the cache - it is missing from every later evaluation")
+            cache_fields = {t.value.attr for st in stores if isinstance(st.stmt, ast.Assign) for t in st.stmt.targets if isinstance(t, ast.Subscript) and is_self_attr(t.value)}
+            replays = [x for x in cfg.nodes if x.kind == "stmt" and isinstance(x.stmt, ast.Expr) and isinstance(x.stmt.value, ast.YieldFrom) and any(cf in src(x.stmt.value.value) for cf in cache_fields)]
+            r.check(bool(replays) and all(cfg.dominates(rp.id, lp.id) for rp in replays), f"{c.name}.__iter__#replay-first", site(f), src(replays[0].stmt) if replays else "",
+                    "cached elements are replayed before the source is advanced", "a re-iteration does not replay the cached elements before advancing the source: earlier values are lost or reordered")
+    if n == 0:
+        r.ok("eql#no-caching-iterator", "src/krrood/entity_query_language", "", "no caching iterator over a one-shot source")
+        r.floor = 1
+    return r
+
+
+def reset_with_evaluation(prog: Program) -> RuleResult:
+    """The per-evaluation reset must happen when the evaluation starts, not when its iterator is created."""
+    r = RuleResult("CARRY-RESET-TIME", "per-evaluation resets run in the same activation that evaluates", floor=1)
+    se = prog.cls(SE)
+    n = 0
+    for c in prog.subclasses(se.qual):
+        for f in c.methods.values():
+            resets = [cc for cc in calls_in(f.node) if call_name(cc) == "_reset_evaluation_state_"]
+            sweeps = [cc for cc in calls_in(f.node) if call_name(cc) == "remove_dead_instances"]
+            if not resets and not sweeps:
+                continue
+            if not any(call_name(cc) == "_evaluate__" for cc in calls_in(f.node)):
+                continue
+            n += 1
+            lazy_return = any(isinstance(x, ast.Return) and x.value is not None and (
+                isinstance(x.value, ast.GeneratorExp) or (isinstance(x.value, ast.Call) and call_name(x.value) in ("map", "filter", "iter", "_evaluate__", "chain"))
+            ) for x in walk_local(f.node))
+            r.check(f.is_generator and not lazy_return, f"{f.short}#reset-when-iteration-starts", site(f), "",
+                    "the reset / sweep runs when the first result is pulled, together with the evaluation",
+                    "the function resets per-evaluation state (or sweeps) when it is *called* but returns a lazy iterator that evaluates later: two iterators obtained "
+                    "before either is consumed share the state of whichever runs first (the second one yields nothing for a rule query)")
+    if n == 0:
+        raise AnalysisError("CARRY-RESET-TIME: no evaluation entry with a reset or sweep found")
+    return r
+
+
 def run(prog: Program, tier: str) -> List[RuleResult]:
-    return [carry1(prog), carry2(prog), ep_handshake(prog)]
+    return [carry1(prog), carry2(prog), ep_handshake(prog), domain_cache(prog), reset_with_evaluation(prog)]
